@@ -223,7 +223,7 @@ def lean_batch(driver, requests, timeout=900):
     p = subprocess.run(["lake", "env", "lean", "--run", f"Driver/{driver}.lean"], cwd=LEAN_DIR,
                        input=data, stdout=subprocess.PIPE, stderr=subprocess.PIPE, text=True,
                        timeout=timeout)
-    outs = [l for l in p.stdout.splitlines() if l.strip()]
+    outs = [l for l in p.stdout.split("\n") if l.strip()]
     if p.returncode != 0 or len(outs) != len(requests):
         raise RuntimeError(f"lean driver {driver} failed rc={p.returncode} got {len(outs)}/{len(requests)} lines: "
                            + p.stderr[-500:] + p.stdout[-300:])
